@@ -17,6 +17,9 @@ def FilterReserved (k : Bytes) : Prop := Gen.checkpointKey <+: k ∨ Gen.namespa
 structure FOK (f : KeyFilter) : Prop where
   db : ∀ n, f.filterDb n = false
   setCmd : f.filterCmd wSet = false
+  delCmd : f.filterCmd wDel = false
+  unlinkCmd : f.filterCmd wUnlink = false
+  pexpireatCmd : f.filterCmd [112,101,120,112,105,114,101,97,116] = false
   keyPass : ∀ name args,
     (∀ idx, keyIndexes name args = some idx → ∀ i ∈ idx, ¬ FilterReserved (args.getD i [])) →
     f.filterCmdKey name args = some args
@@ -59,6 +62,9 @@ theorem defaultFilter_ok : FOK (buildOutput {}) where
       have := (Props.C10.db_iff {} n).mp h
       simp at this
   setCmd := by decide +kernel
+  delCmd := by decide +kernel
+  unlinkCmd := by decide +kernel
+  pexpireatCmd := by decide +kernel
   keyPass := by
     intro name args h
     cases hk : keyIndexes name args with
@@ -93,6 +99,74 @@ theorem defaultFilter_ok : FOK (buildOutput {}) where
       | cons _ _ => rfl
     rw [this]
     rfl
+
+/-- whatever the configuration: what `FilterCmdKey` forwards consists of
+    arguments of the command, and is non-empty when the command had arguments -/
+theorem filterCmdKey_sub (f : KeyFilter) (cmd : Bytes) (args a' : List Bytes)
+    (h : f.filterCmdKey cmd args = some a') : (∀ x ∈ a', x ∈ args) ∧ (args ≠ [] → a' ≠ []) := by
+  have hsame : a' = args → (∀ x ∈ a', x ∈ args) ∧ (args ≠ [] → a' ≠ []) := by
+    intro e; rw [e]; exact ⟨fun x hx => hx, fun h => h⟩
+  by_cases hr : f.hasKeyRules = true
+  · cases hk : keyIndexes cmd args with
+    | none =>
+      rw [Props.C10.filterCmdKey_passthrough f cmd args (Or.inr hk)] at h
+      injection h with h; exact hsame h.symm
+    | some idx =>
+      rw [filterCmdKey_resolved f cmd args idx hr hk] at h
+      have hin := (keyIndexes_inRange hk).2
+      have hmem : ∀ i ∈ keptIdx f args idx, args.getD i [] ∈ args := by
+        intro i hi
+        have hlt := hin i (List.mem_filter.mp hi).1
+        rw [List.getD_eq_getElem?_getD, List.getElem?_eq_getElem hlt]
+        exact List.getElem_mem hlt
+      split at h
+      · injection h with h; exact hsame h.symm
+      · split at h
+        · cases h
+        · rename_i hne
+          have hne' : keptIdx f args idx ≠ [] := by
+            intro e; rw [e] at hne; exact hne rfl
+          split at h
+          · cases h
+          · split at h
+            · injection h with h
+              rw [← h]
+              refine ⟨?_, fun _ => ?_⟩
+              · intro x hx
+                obtain ⟨i, hi, rfl⟩ := List.mem_map.mp hx
+                exact hmem i hi
+              · intro e
+                exact hne' (List.map_eq_nil_iff.mp e)
+            · split at h
+              · split at h
+                · cases h
+                · rename_i hany
+                  injection h with h
+                  rw [← h]
+                  refine ⟨?_, fun _ => ?_⟩
+                  · intro x hx
+                    obtain ⟨i, hi, hx⟩ := List.mem_flatMap.mp hx
+                    simp only [List.mem_cons, List.not_mem_nil, or_false] at hx
+                    rcases hx with rfl | rfl
+                    · exact hmem i hi
+                    · have : ¬ (i + 1 ≥ args.length) := by
+                        intro hge
+                        apply hany
+                        rw [List.any_eq_true]
+                        exact ⟨i, hi, by simpa using hge⟩
+                      have hlt : i + 1 < args.length := by omega
+                      rw [List.getD_eq_getElem?_getD, List.getElem?_eq_getElem hlt]
+                      exact List.getElem_mem hlt
+                  · cases hkk : keptIdx f args idx with
+                    | nil => exact absurd hkk hne'
+                    | cons i rest => simp
+              · cases h
+  · have hr' : f.hasKeyRules = false := by
+      cases hx : f.hasKeyRules with
+      | true => exact absurd hx hr
+      | false => rfl
+    rw [Props.C10.filterCmdKey_passthrough f cmd args (Or.inl hr')] at h
+    injection h with h; exact hsame h.symm
 
 /-! ### reserved prefixes versus the bisync namespace -/
 
